@@ -59,7 +59,7 @@ def run_units(units, repo=None, nproc=None, keep_queries=False):
             r.vac = []
             for vn, hyps in ex.vacuity:
                 r.vac.append((vn, _solve.quick_check(hyps, 3000)))
-            if r.obligations == 0:
+            if r.obligations == 0 and r.trivial == 0:
                 r.status = "error"
                 r.msg = "zero obligations generated (vacuity guard)"
             if any(v == "unsat" for n, v in r.vac if n == "cover-requires"):
